@@ -175,9 +175,14 @@ func (w *walker) attrs(owner string, as map[string]*sysl.Attribute) {
 			continue
 		}
 		w.put("@|"+owner+"|"+name, "annotation", a.GetSourceContexts(), a.GetSourceContext()) //nolint:staticcheck
-		for i, e := range a.GetA().GetElt() {
-			w.put(fmt.Sprintf("#|%s|%s|%d", owner, name, i), "annotation", e.GetSourceContexts(), e.GetSourceContext()) //nolint:staticcheck
-		}
+		w.items(fmt.Sprintf("#|%s|%s|", owner, name), a)
+	}
+}
+
+func (w *walker) items(prefix string, a *sysl.Attribute) {
+	for i, e := range a.GetA().GetElt() {
+		w.put(fmt.Sprintf("%s%d", prefix, i), "annotation", e.GetSourceContexts(), e.GetSourceContext()) //nolint:staticcheck
+		w.items(fmt.Sprintf("%s%d.", prefix, i), e)
 	}
 }
 
@@ -323,11 +328,46 @@ func judge(c *common.Ctx, cs Input, cm compiled) (got map[string]*found, cerr st
 			}
 			key := "count:" + class
 			at := func(d *Decl, x Ctx) bool { return d.File == x.File && d.Line == x.SL && d.Col == x.SC }
+			same := func(want []*Decl) bool {
+				if len(want) != len(f.cs) {
+					return false
+				}
+				for i := range want {
+					if !at(want[i], f.cs[i]) {
+						return false
+					}
+				}
+				return true
+			}
+			// the specific shapes of the known findings; anything else keeps the general key
+			var afterEmpties, doubled []*Decl
+			lead := 0
+			for lead < len(ds) && (ds[lead].Form == "empty-array" || ds[lead].Form == "empty-string") {
+				lead++
+			}
+			if lead == len(ds) {
+				lead-- // only empty values: each one is replaced by the next, the last stays
+			}
+			afterEmpties = ds[lead:]
+			allMulti := true
+			for i, d := range ds {
+				doubled = append(doubled, d)
+				if i > 0 {
+					doubled = append(doubled, d)
+				}
+				if d.Form != "multiline" {
+					allMulti = false
+				}
+			}
 			switch {
 			case ds[0].Kind == kEvent && len(f.cs) == 1 && at(ds[0], f.cs[0]):
 				key = "count:event-redeclared-keeps-first"
 			case ds[0].Kind == kNvp && len(f.cs) == 1 && at(ds[len(ds)-1], f.cs[0]):
-				key = "count:attribute-replaced-keeps-last"
+				key = "count:attribute-replaced-keeps-last:" + ds[len(ds)-1].Form
+			case ds[0].Kind == kAnno && lead > 0 && same(afterEmpties):
+				key = "count:annotation-leading-empty-dropped:" + ds[0].Form
+			case ds[0].Kind == kAnno && allMulti && len(ds) > 1 && same(doubled):
+				key = "count:annotation-multiline-redeclared-doubled"
 			}
 			fail(key, fmt.Sprintf("%s %s is declared %d time(s) at %v but carries %d location(s) %s", class, p, len(ds), want, len(f.cs), fmtPos(f.cs)))
 			continue
